@@ -9,7 +9,9 @@
 // (_exit) at the reported point; the parent inspects the real file.
 #include "driver_common.hpp"
 
+#include <cerrno>
 #include <dlfcn.h>
+#include <sys/stat.h>
 #include <sys/uio.h>
 #include <sys/wait.h>
 
@@ -32,6 +34,7 @@ struct state
     std::map<int, std::size_t> offsets;   // fd -> write position (model)
     std::map<std::string, std::string> initial;   // files that exist before the run (model), e.g. left by an earlier kill
     std::map<std::string, std::size_t> sizes;     // current size of the files of the model
+    bool no_tmp = false;                          // files named *.tmp cannot be created (name too long, directory in the way, ...)
     std::vector<event> events;
     std::size_t iteration = 0;
     // replay mode: real crash
@@ -73,6 +76,10 @@ FILE* fopen64(const char* name, const char* mode)
         {
             bool const exists = s.sizes.count(name) != 0;
             if (std::strchr(mode, 'w') == nullptr && !exists) return nullptr;   // "r", "r+": the file must exist
+            {
+                std::size_t const len = std::strlen(name);
+                if (s.no_tmp && len > 4 && std::strcmp(name + len - 4, ".tmp") == 0) { errno = ENAMETOOLONG; return nullptr; }
+            }
             FILE* f = real("/dev/null", "w");
             if (f != nullptr)
             {
@@ -169,8 +176,9 @@ int rename(const char* a, const char* b)
     {
         if (s.active)
         {
+            if (!s.sizes.count(a)) { errno = ENOENT; return -1; }      // nothing to rename: fails, changes nothing
             s.events.push_back(vfs::event{"rename", a, b, "", s.iteration});
-            if (s.sizes.count(a)) { s.sizes[b] = s.sizes[a]; s.sizes.erase(a); }
+            s.sizes[b] = s.sizes[a]; s.sizes.erase(a);
             return 0;
         }
         std::string pa = vfs::is_vfs(a) ? s.real_prefix + (a + 4) : std::string(a);
@@ -254,13 +262,47 @@ static void ob_crash_sym(H<T>& h)
         vfs::S().initial["vfs:chk.tmp"] = std::string(300, 'z');
         vfs::S().sizes["vfs:chk.tmp"] = 300;
     }
+    std::string const old_complete = "# an older complete checkpoint of another run\n0\n17";
+    bool const notmp = h.get("notmp", 0) != 0;
+    if (notmp)
+    {
+        // the temporary file cannot be created and a complete checkpoint already exists under the final name
+        vfs::S().no_tmp = true;
+        vfs::S().initial["vfs:chk"] = old_complete;
+        vfs::S().sizes["vfs:chk"] = old_complete.size();
+    }
     writing_callback<typename A::chk> cb{hep::callback<typename A::chk>(hep::callback_mode::silent_and_write_chkpt, "vfs:chk", T(0.0)), &texts};
     typename A::chk const out = A::run(w, calls, base, cb);
     vfs::S().active = false;
     std::vector<vfs::event> const ev = vfs::S().events;
     auto const keep_initial = vfs::S().initial;
-    h.check("C18|file.one_checkpoint_written_per_iteration", h.truth(texts.size() == n && !ev.empty()));
+    h.check("C18|file.one_checkpoint_written_per_iteration", h.truth(texts.size() == n && (notmp || !ev.empty())));
     if (texts.size() != n) return;
+    if (notmp)
+    {
+        // nothing can be written safely: whatever happens, the file under the final name stays a complete checkpoint (the old one
+        // or a new one), at every point of the event sequence and after any prefix of any write
+        for (std::size_t i = 0; i <= ev.size(); ++i)
+        {
+            for (int inside = 0; inside != 2; ++inside)
+            {
+                if (inside && (i >= ev.size() || ev[i].kind != "write")) continue;
+                T const p = inside ? h.input("crash_prefix_bytes", 0.0, static_cast<double>(ev[i].data.size())) : T(0.0);
+                // a torn write to the final name: complete only at its very end, which the events after it cover; any strict prefix violates
+                auto fs = files_after(ev, i, -1);
+                auto ok = h.truth(false);
+                if (fs.count("vfs:chk"))
+                {
+                    ok = h.truth(fs["vfs:chk"] == old_complete);
+                    for (auto const& t : texts) ok = ok || texts_identical<T>(h, t, fs["vfs:chk"]);
+                }
+                if (inside && ev[i].a == "vfs:chk") ok = ok && h.eq(p, T(static_cast<double>(ev[i].data.size()))) && h.truth(false);
+                h.event("temporary file cannot be created; kill " + std::string(inside ? "inside" : "before") + " event " + std::to_string(i));
+                h.check("C18|crash.without_a_temporary_file_the_existing_checkpoint_is_never_destroyed", ok);
+            }
+        }
+        return;
+    }
 
     // after the run: the file holds the final checkpoint
     {
@@ -346,9 +388,20 @@ static void ob_crash_real(H<T>& h)
     typename A::chk const base = A::fresh(w);
     std::string const dir = "out/crash_" + std::to_string(::getpid()) + "_";
     bool const stale = h.get("stale", 0) != 0;
+    bool const notmp = h.get("notmp", 0) != 0;
+    std::string const old_complete = "# an older complete checkpoint of another run\n0\n17";
     auto prepare = [&]() {
         std::remove((dir + "chk").c_str());
         std::remove((dir + "chk.tmp").c_str());
+        ::rmdir((dir + "chk.tmp").c_str());
+        if (notmp)
+        {
+            // a directory of that name is in the way: the temporary file cannot be created; an older checkpoint exists
+            ::mkdir((dir + "chk.tmp").c_str(), 0700);
+            static auto real_fopen = vfs::next<FILE* (*)(const char*, const char*)>("fopen64");
+            FILE* f = real_fopen((dir + "chk").c_str(), "w");
+            if (f) { std::fwrite(old_complete.data(), 1, old_complete.size(), f); std::fclose(f); }
+        }
         if (stale)
         {
             static auto real_fopen = vfs::next<FILE* (*)(const char*, const char*)>("fopen64");
@@ -376,7 +429,7 @@ static void ob_crash_real(H<T>& h)
     {
         bool exists = false;
         std::string const content = read_file(dir + "chk", exists);
-        if (!exists || texts.empty() || content != texts.back())
+        if (!notmp && (!exists || texts.empty() || content != texts.back()))
         {
             h.check("C03,C18|file.holds_the_last_checkpoint_after_the_run", h.truth(false));
             bad_before = bad_inside = true;
@@ -405,13 +458,16 @@ static void ob_crash_real(H<T>& h)
             waitpid(pid, &st, 0);
             bool exists = false;
             std::string const content = read_file(dir + "chk", exists);
-            bool ok = !exists;   // absent: nothing complete was lost (the run starts without a checkpoint)
-            for (auto const& t : texts) ok = ok || content == t;
+            bool ok = notmp ? (exists && content == old_complete) : !exists;   // absent: nothing complete was lost (the run starts without a checkpoint)
+            for (auto const& t : texts) ok = ok || (exists && content == t);
             if (!ok) { if (inside) bad_inside = true; else bad_before = true; }
         }
     }
     std::remove((dir + "chk").c_str());
     std::remove((dir + "chk.tmp").c_str());
+    ::rmdir((dir + "chk.tmp").c_str());
+    if (notmp && (bad_before || bad_inside))
+        h.check("C18|crash.without_a_temporary_file_the_existing_checkpoint_is_never_destroyed", h.truth(false));
     if (bad_before)
     {
         h.check("C18|crash.before_open_trunc_leaves_previous_or_new_complete_checkpoint", h.truth(false));
